@@ -29,7 +29,7 @@ pub fn gen_strategy(rng: &mut Rng, est_steps: u32, concurrent: bool) -> SchedSpe
 
 pub fn exec_case(case: &Case) -> CaseResult {
     match case.engine {
-        Engine::Hist => run_case(case, crate::hist::body),
+        Engine::Hist => exec_hist(case),
         Engine::Conc => exec_conc(case),
         Engine::Crash => run_case(case, crate::crash::body),
         Engine::LogSim => run_case(case, crate::logsim::body),
@@ -50,15 +50,25 @@ pub fn exec_case(case: &Case) -> CaseResult {
 /// Freeze) is re-executed under fair round robin; only if that also exceeds the bound is it a
 /// violation, otherwise it is counted as an unfair-schedule timeout.
 fn exec_conc(case: &Case) -> CaseResult {
-    let mut res = run_case(case, crate::conc::body);
+    exec_with_fair_rerun(case, crate::conc::body)
+}
+
+fn exec_hist(case: &Case) -> CaseResult {
+    exec_with_fair_rerun(case, crate::hist::body)
+}
+
+fn exec_with_fair_rerun(case: &Case, body: fn(&Case, &crate::exec::Shared)) -> CaseResult {
+    let mut res = run_case(case, body);
     if let Some(pos) = res.findings.iter().position(|f| f.class == "step-bound") {
         let mut fair = case.clone();
         fair.sched = SchedSpec { strategy: Strategy::RoundRobin, seed: case.sched.seed };
         fair.schedule = None;
-        let r2 = run_case(&fair, crate::conc::body);
+        // a long plan is not a livelock: the fair re-run gets twenty times the step budget
+        fair.max_steps = Some(case.max_steps.unwrap_or(crate::exec::DEFAULT_MAX_STEPS).saturating_mul(20));
+        let r2 = run_case(&fair, body);
         if r2.findings.iter().any(|f| f.class == "step-bound") {
             res.findings[pos].properties = vec!["C09".into()];
-            res.findings[pos].detail.push_str("; the same plan under a fair round-robin schedule also exceeds the bound");
+            res.findings[pos].detail.push_str("; the same plan under a fair round-robin schedule also exceeds twenty times the bound");
         } else {
             res.findings.remove(pos);
             res.stats.bump("unfair_schedule_timeouts", 1);
